@@ -125,6 +125,8 @@ func (s spec) String() string {
 		b += fmt.Sprintf(" cw=%s hs=%d misc=%d fail=%d", showGroups(s.cw), s.hs, s.misc, f)
 	case "close":
 		b += fmt.Sprintf(" cw=%s closeafter=%d closers=%d", showGroups(s.cw), s.closeAfter, s.closers)
+	case "hsclose":
+		b += fmt.Sprintf(" hs=%d closeafter=%d", s.hs, s.closeAfter)
 	case "read":
 		b += fmt.Sprintf(" slen=%d rbufs=%s", s.slen, showInts(s.rbufs))
 	case "dgram":
@@ -729,6 +731,50 @@ func scenDgram(sp spec, y *yielder, o *obs) {
 	}
 }
 
+// scenHsClose: Close on the client races with the first handshake (several Handshake callers
+// on both sides, a Read on the server).
+func scenHsClose(sp spec, y *yielder, o *obs) {
+	e := mkPair(sp, y)
+	start := make(chan struct{})
+	var chg, shg, cg group
+	chs := make([]string, sp.hs)
+	shs := make([]string, sp.hs)
+	for i := 0; i < sp.hs; i++ {
+		i := i
+		chg.goFn(func() { <-start; y.maybe(); chs[i] = resTok(e.c.Handshake()) })
+		shg.goFn(func() { <-start; y.maybe(); shs[i] = resTok(e.s.Handshake()) })
+	}
+	closeRes := ""
+	cg.goFn(func() {
+		<-start
+		for k := 0; k < sp.closeAfter; k++ {
+			runtime.Gosched()
+			if k%8 == 7 {
+				time.Sleep(20 * time.Microsecond)
+			}
+		}
+		closeRes = errTok(e.c.Close())
+	})
+	close(start)
+	ok := cg.wait(watchdog) && chg.wait(watchdog)
+	// the client is gone; a DTLCP server would keep retransmitting for its whole handshake
+	// timeout, so its transport is shut down: its callers must then return
+	e.abort()
+	ok = shg.wait(watchdog) && ok
+	if !ok {
+		o.dead = true
+		chg.wait(2 * time.Second)
+	}
+	o.add("chs", strings.Join(chs, ","))
+	o.add("shs", strings.Join(shs, ","))
+	o.add("close", closeRes)
+	for _, g := range []*group{&chg, &shg, &cg} {
+		if len(g.panics) > 0 {
+			o.panic = g.panics[0]
+		}
+	}
+}
+
 // oneShotListener hands out one prepared transport end.
 type oneShotListener struct {
 	ch chan net.Conn
@@ -909,6 +955,8 @@ func runCase(desc string, rl *raceLog) string {
 				scenRead(sp, y, o)
 			case "dgram":
 				scenDgram(sp, y, o)
+			case "hsclose":
+				scenHsClose(sp, y, o)
 			case "switch":
 				scenSwitch(sp, y, o)
 			default:
